@@ -115,6 +115,11 @@ def merge : Nat → BT → BT → Outcome BT
       | .panic => .panic
       | .diverge => .diverge
 
+/-- `n != nil && n.order == o` -/
+def headOrderIs (o : Int) : BT → Bool
+  | nil => false
+  | node _ so _ _ => so == o
+
 def chainLen : BT → Nat
   | nil => 0
   | node _ _ _ s => chainLen s + 1
@@ -232,10 +237,7 @@ def consolidateLoop (cmp : K → K → Int) (h : IBinomial K V) (cid : Nat) (co 
     BT → Outcome BT
   | .nil => .ok (.node cid co cc .nil)
   | .node nid no nc ns =>
-    let sibSame : Bool := match ns with
-      | .nil => false
-      | .node _ so _ _ => so == co
-    if co ≠ no ∨ sibSame = true then
+    if co ≠ no ∨ ns.headOrderIs co = true then
       -- cases 1 and 2: prev, curr = curr, next
       match consolidateLoop cmp h nid no nc ns with
       | .ok r => .ok (.node cid co cc r)
